@@ -545,6 +545,43 @@ func checkRingPolys(c ringPolys) ev.Outcome {
 		o.Finding = "polygon-relation"
 		return o
 	}
+	// A loop OBJECT that was a hole of A, handed alone to PolygonFromLoops, is the
+	// only shell of the new polygon: the disc of its ring (atoms x > ring index).
+	// (A is not used any more after this.)
+	for m := 0; m < pa.NumLoops(); m++ {
+		hl := pa.Loop(m)
+		if !hl.IsHole() {
+			continue
+		}
+		r := ringOf(hl)
+		q := s2.PolygonFromLoops([]*s2.Loop{hl})
+		if err := q.Validate(); err != nil || q.NumLoops() != 1 || q.Loop(0).IsHole() {
+			o.Err = fmt.Sprintf("single-loop polygon built from a loop that was a hole before: Validate=%v loops=%d IsHole=%v", err, q.NumLoops(), q.NumLoops() == 1 && q.Loop(0).IsHole())
+			o.Finding = "polygon-reused-loop"
+			return o
+		}
+		wc, wi := true, false
+		for x := 0; x <= k; x++ {
+			mq, mb := x > r, mem(c.SB, x)
+			if mb && !mq {
+				wc = false
+			}
+			if mq && mb {
+				wi = true
+			}
+		}
+		if g, h, i := q.Contains(pb), q.Intersects(pb), pb.Intersects(q); g != wc || h != wi || i != wi {
+			o.Err = fmt.Sprintf("polygon of the former hole ring %d vs B: Contains=%v (truth %v) Intersects=%v / %v (truth %v)", r, g, wc, h, i, wi)
+			o.Finding = "polygon-reused-loop"
+			return o
+		}
+		if !q.ContainsPoint(c.R.Center.Pt()) {
+			o.Err = "polygon of a former hole ring does not contain the common centre"
+			o.Finding = "polygon-reused-loop"
+			return o
+		}
+		break
+	}
 	return o
 }
 
